@@ -5,8 +5,11 @@ package props
 import (
 	"encoding/hex"
 	"fmt"
+	"image/color"
 
+	"github.com/reactivego/ivg"
 	"github.com/reactivego/ivg/decode"
+	"github.com/reactivego/ivg/render"
 
 	"ivgverif/internal/rec"
 	"ivgverif/internal/ref"
@@ -154,4 +157,45 @@ func countKinds(c *run.Ctx, kinds *[rec.NKinds]int64) {
 func refMetaEnd(b []byte) (int, bool) {
 	m, e := ref.ParseMeta(b)
 	return m.End, e == nil
+}
+
+// dirtyDestination gives a Destination (an Encoder or a Renderer with a
+// rasterizer set) a past: another graphic was started on it with Reset, moved
+// the selectors by plain and incrementing writes, filled registers, narrowed
+// the LOD range and, half of the time, stopped in the middle of a path. A
+// check that then calls Reset itself must see a destination indistinguishable
+// from a fresh one (C17 states this; the other checks use such destinations
+// because a caller may).
+func dirtyDestination(r *run.Rng, dst ivg.Destination, pal [64]color.RGBA) {
+	vb := ivg.ViewBox{MinX: -float32(r.Range(1, 40)), MinY: -float32(r.Range(1, 40)), MaxX: float32(r.Range(1, 40)), MaxY: float32(r.Range(1, 40))}
+	dst.Reset(vb, pal)
+	dst.SetCSel(uint8(r.Range(1, 63)))
+	dst.SetNSel(uint8(r.Range(1, 63)))
+	for n := r.Range(1, 70); n > 0; n-- {
+		dst.SetCReg(0, true, ivg.RGBAColor(color.RGBA{0x20, uint8(n), 0x60, 0xf0}))
+		dst.SetNReg(0, true, float32(n)/3)
+	}
+	dst.SetLOD(float32(r.Range(1, 9)), float32(r.Range(10, 19)))
+	dst.SetLOD(0, float32(r.Range(1000, 2000)))
+	if r.Bool() {
+		dst.StartPath(uint8(r.Intn(7)), 1, 2)
+		dst.AbsQuadTo(3, 4, 5, 6)
+		dst.RelSmoothQuadTo(1, 1)
+	}
+}
+
+// earlierGraphic makes a Renderer (rasterizer already set) the veteran of
+// another graphic whose viewBox has the same size as vb but another origin,
+// abandoned in the middle of a path: "nothing changed" shortcuts in Reset or in
+// the transform computation then have something to get wrong.
+func earlierGraphic(z *render.Renderer, vb ivg.ViewBox) {
+	moved := ivg.ViewBox{MinX: vb.MinX + 3, MinY: vb.MinY - 5, MaxX: vb.MaxX + 3, MaxY: vb.MaxY - 5}
+	z.Reset(moved, ivg.DefaultPalette)
+	z.SetCSel(5)
+	z.SetNSel(7)
+	z.SetCReg(0, true, ivg.RGBAColor(color.RGBA{0x40, 0x20, 0x10, 0x80}))
+	z.SetNReg(0, true, 0.25)
+	z.StartPath(1, moved.MinX, moved.MinY)
+	z.AbsQuadTo(moved.MaxX, moved.MinY, moved.MaxX, moved.MaxY)
+	z.RelSmoothQuadTo(1, 1)
 }
